@@ -40,6 +40,9 @@ func getStructEncoder(t reflect.Type) ValueEncoder {
 		return valenc.(ValueEncoder)
 	}
 	if name := t.Name(); name != "" {
+		if existing := getNamedStructEncoder(t); existing != nil {
+			return existing // see getStructDecoder
+		}
 		return newNamedStructEncoder(t, name)
 	}
 	return newAnonymousStructEncoder(t)
